@@ -117,7 +117,7 @@ impl core::fmt::Display for Gumbel {
 #[cfg(feature = "rand")]
 impl ::rand::distributions::Distribution<f64> for Gumbel {
     fn sample<R: rand::Rng + ?Sized>(&self, r: &mut R) -> f64 {
-        self.location - self.scale * ((-(r.gen::<f64>())).ln()).ln()
+        self.location - self.scale * (-(r.gen::<f64>().ln())).ln()
     }
 }
 
